@@ -187,6 +187,8 @@ def run(ctx):
     resolve_rule(ctx, h, res)
     from rules import hist
     hist.run(ctx, res, 'C14', extra=('rules.histobs', 'puml'))       # composition: histories through the public API against the reference model (rules/hist.py)
+    from rules import scale
+    scale.run(ctx, res, 'C14', extra=('rules.histobs', 'puml'))      # the same on graphs whose collections have the sizes the tree names (rules/scale.py)
     common.vacuity(res, "HISTORY", 250)
     common.vacuity(res, "PUML", 19)
     res.analysed = common.analysed(ctx, [FN, "edgegraph.output.plantuml._one_link_to_puml", "edgegraph.output.plantuml._one_vert_to_puml", "edgegraph.output.plantuml._resolve_options", "edgegraph.output.plantuml._vertex_title"])
